@@ -16,7 +16,8 @@ PKG, HARNESS = HARNESSES[2][0], HARNESSES[2][1]
 PARTS = {"c03fs": "fs", "c03vault": "vault", "c03ks": "ks", "c03api": "api"}
 
 REQUIRED = [
-    "kid_confined", "kid_confined_vault", "valid_kid_bytes", "pattern_alone_does_not_confine_vault",
+    "kid_confined", "kid_confined_vault", "valid_kid_bytes", "kid_pattern_language", "uuid_names_confined",
+    "backend_names_valid_or_drawn", "key_material_does_not_flow", "fact_uuid_bytes_allowed", "pattern_alone_does_not_confine_vault",
     "wrapper_validates_all_kid_methods", "unknown_kid_never_signs", "sign_only_by_reference",
     "backend_touched_only_at_valid_or_new_names", "keyref_binding", "signature_verifies_with_published_key_only",
     "signjws_no_private_jwk", "store_signjws_headers", "store_key_as_jwk_header_refused", "signjws_rule_is_signer_typed",
